@@ -120,7 +120,7 @@ impl PartitionConfirmationState {
         // confirmation) and must not take a reached quorum away again.
         event.confirmation_count = event.confirmation_count.max(confirmation_count);
         event.last_attempt = now;
-        event.attempts += 1;
+        event.attempts = event.attempts.saturating_add(1);
 
         // Check if we can advance the watermark
         let required_quorum = (replication_factor / 2) + 1;
